@@ -92,6 +92,15 @@ func victim(syntax, full string) *dp {
 		m.Field = append(m.Field, &fldp{Name: proto.String("c35group"), Number: proto.Int32(9), Label: lOpt(), Type: tGrp(), TypeName: ref("C35Group")})
 		m.NestedType = append(m.NestedType, &dp{Name: proto.String("C35Group"), Field: []*fldp{{Name: proto.String("a"), Number: proto.Int32(1), Label: lOpt(), Type: tI32()}}})
 	}
+	if syntax == "editions" {
+		// independent of what the file sets as defaults
+		for _, f := range m.Field {
+			if f.OneofIndex == nil && f.GetLabel() == descriptorpb.FieldDescriptorProto_LABEL_OPTIONAL {
+				fieldFeatures(f).FieldPresence = descriptorpb.FeatureSet_EXPLICIT.Enum()
+			}
+		}
+		m.EnumType[0].Options = &descriptorpb.EnumOptions{Features: &descriptorpb.FeatureSet{EnumType: descriptorpb.FeatureSet_OPEN.Enum()}}
+	}
 	if syntax != "proto3" {
 		m.ExtensionRange = []*descriptorpb.DescriptorProto_ExtensionRange{{Start: proto.Int32(100), End: proto.Int32(200)}}
 		m.Extension = []*fldp{{Name: proto.String("c35_x"), Number: proto.Int32(100), Label: lOpt(), Type: tI32(), Extendee: proto.String("." + full)}}
@@ -344,11 +353,11 @@ func enumOpen(f *fdp, e *edp) bool {
 	case "proto2":
 		return false
 	}
-	if et := e.GetOptions().GetFeatures().EnumType; et != nil {
-		return *et == descriptorpb.FeatureSet_OPEN
+	if fs := e.GetOptions().GetFeatures(); fs != nil && fs.EnumType != nil {
+		return fs.GetEnumType() == descriptorpb.FeatureSet_OPEN
 	}
-	if et := f.GetOptions().GetFeatures().EnumType; et != nil {
-		return *et == descriptorpb.FeatureSet_OPEN
+	if fs := f.GetOptions().GetFeatures(); fs != nil && fs.EnumType != nil {
+		return fs.GetEnumType() == descriptorpb.FeatureSet_OPEN
 	}
 	return true
 }
@@ -379,6 +388,18 @@ func isMapField(r fieldRef) (*dp, bool) {
 		}
 	}
 	return nil, false
+}
+
+// delimited reports whether a message-typed field of an editions file resolves to DELIMITED
+// encoding (message_encoding can be set on the field and on the file only).
+func delimited(f *fdp, fd *fldp) bool {
+	if syntaxOf(f) != "editions" {
+		return false
+	}
+	if fs := fd.GetOptions().GetFeatures(); fs != nil && fs.MessageEncoding != nil {
+		return fs.GetMessageEncoding() == descriptorpb.FeatureSet_DELIMITED
+	}
+	return f.GetOptions().GetFeatures().GetMessageEncoding() == descriptorpb.FeatureSet_DELIMITED
 }
 
 func realOneofMember(r fieldRef) bool { return r.f.OneofIndex != nil && !r.f.GetProto3Optional() }
